@@ -26,7 +26,7 @@ inductive Outcome (α : Type) where
   | raised (e : Exn)
   | oracleMismatch
   | outOfFuel
-  deriving Repr
+  deriving Repr, DecidableEq
 
 namespace Outcome
 @[inline] def bind {α β} (x : Outcome α) (f : α → Outcome β) : Outcome β :=
